@@ -173,6 +173,7 @@ Do(s, op) ==
       [] op.op = "load"    -> Load(s, op.data)
       [] op.op = "loadfn"  -> LoadFn(s, op.c)
       [] op.op = "normalize" -> NormMoment(s, op.k)
+      [] op.op = "selfupdate" -> Update(s, s.psd)          \* UpdatePBMEuler handed the model's own array
       [] op.op = "moments" -> s
       [] op.op = "recon"   -> RecOn(s)
       [] op.op = "recoff"  -> RecOff(s)
